@@ -1,6 +1,7 @@
 package main
 
 import (
+	"os"
 	"fmt"
 	"go/constant"
 	"go/token"
@@ -13,6 +14,7 @@ import (
 )
 
 var ratZero = new(big.Rat)
+var traceBranches bool
 
 // pathEnd terminates the current path (Go panic used for control flow).
 type pathEnd struct {
@@ -151,6 +153,13 @@ func (ex *Exec) feasible(extra *Term) Result {
 	as := make([]*Term, 0, len(ex.pc)+1)
 	as = append(as, ex.pc...)
 	as = append(as, extra)
+	if os.Getenv("VERIF_ALLQ") != "" && ex.frame != nil {
+		str := ex.ctx.Inline(extra)
+		if len(str) > 160 {
+			str = str[:160]
+		}
+		fmt.Printf("QUERY @%s pc=%d: %s\n", trimPkg(ex.frame.fn.String()), len(ex.pc), str)
+	}
 	script := ex.ctx.Script(as, nil)
 	return ex.pool.Check(script, ex.eng.branchMs, ex.eng.branchSlowMs)
 }
@@ -181,6 +190,20 @@ func (ex *Exec) branch(cond *Term) bool {
 		ex.addPC(c.Not(cond))
 		return false
 	}
+	if traceBranches {
+		where := ""
+		if ex.frame != nil {
+			where = ex.frame.fn.String()
+			if ex.frame.caller != nil {
+				where += " <- " + ex.frame.caller.fn.String()
+			}
+		}
+		str := ex.ctx.Inline(cond)
+		if len(str) > 300 {
+			str = str[:300] + "..."
+		}
+		fmt.Printf("BRANCH @%s: %s\n", trimPkg(where), str)
+	}
 	rt := ex.feasible(cond)
 	rf := Sat
 	if rt != Unsat {
@@ -188,6 +211,17 @@ func (ex *Exec) branch(cond *Term) bool {
 	}
 	if rt == Unknown || rf == Unknown {
 		ex.res.Unknown = append(ex.res.Unknown, "branch")
+		if progress {
+			where := ""
+			if ex.frame != nil {
+				where = trimPkg(ex.frame.fn.String())
+			}
+			str := ex.ctx.Inline(cond)
+			if len(str) > 200 {
+				str = str[:200]
+			}
+			fmt.Printf("  UNKNOWN-BRANCH trace=%v @%s: %s\n", ex.trace, where, str)
+		}
 	}
 	switch {
 	case rt == Unsat && rf == Unsat:
@@ -750,6 +784,10 @@ func (ex *Exec) runBlock(fr *Frame) (*PanicV, bool) {
 				if k, ok := ex.h.UnwindAssume[fr.fn.String()]; ok && fr.symCount[i] > k {
 					ex.eng.noteOnce("assumed: loop in " + trimPkg(fr.fn.String()) + " exits within " + itoa(k) + " iterations (rejection sampling; outside the claim beyond that)")
 					panic(pathEnd{kind: "infeasible"})
+				}
+				if k, ok := ex.h.UnwindCut[fr.fn.String()]; ok && fr.symCount[i] > k {
+					ex.eng.noteOnce("cut: loop in " + trimPkg(fr.fn.String()) + " explored for " + itoa(k) + " iterations only (later iterations are outside the claim)")
+					panic(pathEnd{kind: "cut"})
 				}
 				if fr.symCount[i] > ex.unwindBound(fr.fn) {
 					panic(pathEnd{kind: "unwind", msg: fmt.Sprintf("loop bound %d exceeded in %s at %s", ex.unwindBound(fr.fn), fr.fn, ex.eng.pos(i))})
